@@ -153,7 +153,9 @@ PROPS["C06"] = {
              "run with `lace run` (both output modes, with and without -f stack, with input) and stdout + exit "
              "status compared with the model of main.rs::run and with each other; arbitrary byte strings (every "
              "length parity, empty, any first word, images ending at / one below / one above the top of memory) "
-             "are offered as .lc3/.obj files. Every case is distinct by construction (fresh random program or bytes)."),
+             "are offered as .lc3/.obj files; one case in three is a real assembly source over the whole instruction and "
+             "directive set under a random layout, whose compiled bytes must be the object-file encoding of the image "
+             "the assembler model computes from the same text. Every case is distinct by construction."),
     "trusted": [
         "clap argument parsing and real file-system semantics",
         "the words of generated sources are given as .fill directives here; instruction encoding is C01",
@@ -563,7 +565,7 @@ PROPS["C09"] = _dbg(
 PROPS["C10"] = _dbg(
     ["Lace.C10.paused_machine_on_trajectory", "Lace.C10.stepInto_iter", "Lace.C10.continue_iter",
      "Lace.C10.stepOver_iter", "Lace.C10.stepOver_pauses", "Lace.C10.stepOut_iter", "Lace.C10.cmd_step",
-     "Lace.C10.cmd_stepInto", "Lace.C10.cmd_refused_at_halt"],
+     "Lace.C10.cmd_stepInto", "Lace.C10.cmd_refused_at_halt", "Lace.C10.stepInto_exact"],
     "generated programs and hand-written ones (self-loop, counted loop, recursive JSR and CALL subroutines, HALT in the "
     "middle, jumps to xFFFF / below origin / above user space, high origin) × random scripts over {step, step into k with "
     "k ∈ {0,1,2,3,7,65535}, step out, continue, break add/remove} ending in exit; verdict adv=same: the paused machine "
